@@ -5,10 +5,28 @@
    ParseModel) are structural Fixpoints / plain Definitions — no fuel, no well-founded recursion — so the
    model is a total function on every Latin-1 string by construction (Coq accepted the definitions).  That is
    a claim about the model; its tie to fsic/parser.py is the correspondence K_parse of harness/props/C13.py.
-   The syntax check compile(code, '<string>', 'exec') is the oracle `chk`; theorems hold for every oracle. *)
+   The syntax check compile(code, '<string>', 'exec') is the oracle `chk`; theorems hold for every oracle.
+
+   WHAT IS PROVED AND WHAT IS ONLY CHECKED (after the independent review, 2026-10-02):
+   (a) "terminates": the model is total by construction; the cost of Python's regex engine is NOT modelled — the harness
+       measures growth exponents on scaling families (three super-linear families are kept findings `C13|scaling|…`).
+   (b) "only its own errors": proved (C13_every_exception_classified, C13_own_errors_only/_when_fences_clean, the ValueError
+       refutation); inside the PUnmodelled hole the model stops INSIDE template.format (C13_unmodelled_only_inside_format),
+       which fsic wraps in an except clause for all seven exception classes str.format can raise — that CPython fact is an
+       assumption, exercised by generated format-spec inputs.
+   (c) "returns with the check on => build_model succeeds and the class can be instantiated": NO model and NO theorem; judged
+       by the oracle on the real code only (three kept findings, signatures carry the cause).  C13_accepted_means_every_code_compiled
+       only says each code got ChkOk on its own.
+   (d) "never executes / no effects": the model is a pure function whose only call out is `chk` on generated code strings
+       (C13_oracle_sees_only_generated_codes, C13_nocheck_ignores_oracle — both hold by construction of the definitions and are
+       NOT counted as covering the clause); the clause is judged by the oracle only (canary builtins from before the first call,
+       process-state snapshots, state-between-calls).
+   (e) "no statement discarded / one equation or block each": proved, unguarded exact form + guarded form + partition of lines.
+   Theorems that merely unfold the ten-line oracle interface (check_codes / parse_statements) are marked [interface] below:
+   they document the modelled control flow and are not counted as covering a clause of the property. *)
 From Coq Require Import String Ascii List Bool Arith ZArith.
 Import ListNotations.
-Require Import PyBase PyStr Lex LexCoverFacts Symbols Split SplitFacts SplitChunks SplitChunksFacts SplitBalanceFacts Merge ParseEq ParseEqFacts ParseModel ParseModelFacts ParseModelExamples
+Require Import PyBase PyStr Lex LexCoverFacts Format Symbols Split SplitFacts SplitChunks SplitChunksFacts SplitBalanceFacts Merge ParseEq ParseEqFacts ParseModel ParseModelFacts ParseModelExamples
                ParseContribFacts ParseContribExamples FormatDecideFacts SplitInsertFacts ParseOracleFacts SplitIdemFacts ParseEqYieldFacts MergeUniqueFacts ParseCountFacts SplitFenceGuardFacts MergeClashFacts.
 Open Scope string_scope.
 
@@ -40,6 +58,7 @@ Section C13.
   Proof. exact (own_errors_only chk cs s). Qed.
 
   (* chk_outcomes_propagate: a foreign exception of the oracle on a code that is reached comes out as it is … *)
+  (* [interface] *)
   Theorem C13_chk_outcomes_propagate s pre st post serr syms before c after :
     split_M s = ((pre ++ st :: post)%list, serr) ->
     (forall x, In x pre -> passes chk x) ->
@@ -49,6 +68,7 @@ Section C13.
   Proof. exact (chk_outcomes_propagate chk s pre st post serr syms before c after). Qed.
 
   (* … and the model never raises a foreign exception the oracle did not produce *)
+  (* [interface] *)
   Theorem C13_other_exn_only_from_oracle cs s :
     parse_model_M chk cs s = PErr OtherError -> cs = true /\ exists c, chk c = ChkOtherExn.
   Proof. exact (other_exn_only_from_oracle chk cs s). Qed.
@@ -56,6 +76,7 @@ Section C13.
   (* fix 74fa5fb: compile() failing with ValueError, RecursionError, MemoryError or OverflowError (oracle outcome ChkCaughtExn)
      is caught like SyntaxError.  For every script whose statements all parse and whose codes the oracle accepts or fails
      to compile in one of the caught ways (or with one SyntaxWarning), one such failure anywhere is a ParserError … *)
+  (* [interface] *)
   Theorem C13_compile_failure_is_parser_error s st syms :
     snd (split_M s) = None ->
     (forall x, In x (fst (split_M s)) -> passes chk x) ->
@@ -63,22 +84,26 @@ Section C13.
     parse_model_M chk true s = PErr ParserError.
   Proof. exact (compile_failure_is_parser_error chk s st syms). Qed.
   (* … each of SyntaxError / the four caught classes / SyntaxWarning on the first non-ok code is a problem statement … *)
+  (* [interface] *)
   Theorem C13_check_codes_problem before c after :
     (forall x, In x before -> chk x = ChkOk) ->
     match chk c with ChkSyntaxError | ChkCaughtExn | ChkSyntaxWarning => true | _ => false end = true ->
     check_codes chk (before ++ c :: after)%list = VProblem.
   Proof. exact (check_codes_problem chk before c after). Qed.
   (* … and an oracle that only ever answers ok or one of those failures never makes parse_model raise a foreign exception *)
+  (* [interface] *)
   Theorem C13_caught_failures_never_foreign cs s e :
     (forall c, chk c = ChkOk \/ match chk c with ChkSyntaxError | ChkCaughtExn | ChkSyntaxWarning => true | _ => false end = true) ->
     parse_model_M chk cs s = PErr e -> e <> OtherError.
   Proof. exact (caught_failures_never_foreign chk cs s e). Qed.
 
   (* with check_syntax=False nothing is compiled at all *)
+  (* [interface] *)
   Theorem C13_nocheck_ignores_oracle chk' s : parse_model_M chk false s = parse_model_M chk' false s.
   Proof. exact (nocheck_ignores_oracle chk chk' s). Qed.
 
   (* returning with the syntax check on means: no split error, every statement parsed, every generated code compiled cleanly *)
+  (* [interface] *)
   Theorem C13_accepted_means_every_code_compiled s syms :
     parse_model_M chk true s = POk syms ->
     snd (split_M s) = None /\
@@ -111,9 +136,10 @@ Section C13.
     n_emitted out = length (fst (split_M s)).
   Proof. exact (every_statement_contributes chk cs s out). Qed.
 
-  (* where the model is silent: PUnmodelled (str.format fields with attribute / index / spec / conversion, whose outcome
-     depends on object addresses) can only come from a statement in which the term lexer leaves a "{" outside every
-     match — a brace that is not part of a {name} term.  Every other script is decided (POk or PErr). *)
+  (* where the model is silent: PUnmodelled (str.format fields with attribute / index / spec / conversion: on str arguments
+     the call either fails — ParserError since 6fcad37 / 51af71a — or yields a text the model does not compute, e.g. padding,
+     repr(), a character, or a bound-method repr with an address) can only come from a statement in which the term lexer leaves
+     a "{" outside every match — a brace that is not part of a {name} term.  Every other script is decided (POk or PErr). *)
   Theorem C13_model_decides_unless_stray_brace cs s :
     parse_model_M chk cs s = PUnmodelled ->
     exists st, In st (fst (split_M s)) /\ stray_open (scan_items st) = true.
@@ -129,6 +155,7 @@ Section C13.
 
   (* "never executes the model's statements", as far as the model can say it: compile() is handed nothing but the code
      strings generated for the script's statements — two oracles that agree on those give the same result *)
+  (* [interface] *)
   Theorem C13_oracle_sees_only_generated_codes chk' cs s :
     (forall st syms c, In st (fst (split_M s)) -> parse_equation_M st = POk syms -> In c (codes_of syms) -> chk c = chk' c) ->
     parse_model_M chk cs s = parse_model_M chk' cs s.
@@ -288,6 +315,21 @@ Theorem C13_single_statement_check_never_fires s y :
   In y (fst (split_M s)) -> parse_equation_M y = parse_equation_body y.
 Proof. exact (parse_equation_M_yielded s y). Qed.
 Print Assumptions C13_single_statement_check_never_fires.
+
+(* the hole is ONE program point: parse_equation_M st = PUnmodelled means every earlier check of parse_equation passed and the
+   model stopped inside `template.format(...)` (on the standardised text, or on the code after the first call succeeded) —
+   the call fsic wraps in `except (AttributeError, IndexError, KeyError, MemoryError, OverflowError, TypeError, ValueError)`.
+   So PUnmodelled can hide a foreign exception only if str.format on str arguments raised outside those seven classes. *)
+Theorem C13_unmodelled_only_inside_format st :
+  parse_equation_M st = PUnmodelled ->
+  is_blank st = false /\ split_M st = (fst (split_M st), None) /\ length (fst (split_M st)) = 1%nat /\
+  (head_is "`" st && last_is "`" st) = false /\ count_char "{" st = count_char "}" st /\
+  exists terms strs codes,
+    parse_equation_terms st = Ret terms /\ all_some (map term_str terms) = Some strs /\ all_some (map term_code terms) = Some codes /\
+    (py_format (template st) strs = FUnmodelled \/
+     (exists sd, py_format (template st) strs = FOk sd /\ py_format (template st) codes = FUnmodelled)).
+Proof. exact (unmodelled_only_inside_format st). Qed.
+Print Assumptions C13_unmodelled_only_inside_format.
 
 (* the hypotheses of C13_no_statement_discarded hold on an ordinary script (comment, blank line, fenced block,
    bracketed continuation) *)
